@@ -382,6 +382,23 @@ func (e *fenv) noteStatus() {
 	}
 }
 
+// probeRunning asks the job itself (API level, independent of log texts): HandleCreateSavepoint refuses unless the
+// job is Running. It has a side effect when it succeeds, so it is only used where the behaviour ends anyway.
+func (e *fenv) probeRunning() bool {
+	var err error
+	done := make(chan struct{})
+	go func() {
+		defer close(done)
+		err, _ = protect(func() error { _, er := e.job.HandleCreateSavepoint(context.Background()); return er })
+	}()
+	select {
+	case <-done:
+		return err == nil
+	case <-time.After(waitLong):
+		return false
+	}
+}
+
 // attempt describes one start(): the Deploy calls it made.
 type attempt struct {
 	ops, srs []string
@@ -678,6 +695,10 @@ func replayFake(bi int, beh []mbt.Step, in *mbt.Input, res *mbt.Result) {
 			return false
 		}
 		if st := mbt.Step(evo).Str("status"); (st == "Running") != e.running {
+			if e.running && !e.probeRunning() {
+				res.Errors = append(res.Errors, fmt.Sprintf("behaviour %d step %d: the job's log says Running but it refuses a savepoint: log-derived status is unreliable", bi, si))
+				return false
+			}
 			if e.running {
 				viol(si, "", "the job keeps Running on assembly %v %v although a member is no longer registered and live (registry %v)", e.asmOps, e.asmSrs, keys(e.reg))
 			} else {
@@ -775,6 +796,9 @@ func replayFake(bi int, beh []mbt.Step, in *mbt.Input, res *mbt.Result) {
 				break
 			}
 			out, got := e.outcome()
+			if !got && !fin.Bool("ok") && !e.probeRunning() {
+				out, got = "failed", true // no recognisable log record, but the job itself says it is not running
+			}
 			if !got {
 				viol(si, "", "every Deploy call has returned but the job neither runs nor reports a failed start")
 				ok = false
